@@ -67,6 +67,7 @@ ResMatches(r, e) ==
        [] OTHER -> TRUE
 T_FeDone == Ev("FeDone") /\ UNCHANGED started /\ E.h \in started /\ FeObserve(E.h) /\ ResMatches(fe'[E.h].res, E.res)
 
+T_FeAbandon == Ev("FeAbandon") /\ UNCHANGED started /\ E.h \in started /\ FeAbandon(E.h)
 T_SubNext == Ev("SubNext") /\ UNCHANGED started /\ SubNext(E.h) /\ Head(stream[E.h].buf) = E.n
 T_SubEnd == Ev("SubEnd") /\ UNCHANGED started /\ SubEnd(E.h) /\ stream[E.h].lagged = E.lagged
 T_SubUnsub == Ev("SubUnsub") /\ UNCHANGED started /\ SubUnsubStart(E.h)
@@ -106,7 +107,7 @@ ClientCanStep ==
 T_Quiet == Ev("Quiet") /\ UNCHANGED <<vars, started>> /\ ~ClientCanStep
 (* the scenario is over: the connection has ended, so nothing may still be pending *)
 T_End == /\ Ev("End") /\ UNCHANGED <<vars, started>>
-         /\ \A h \in started : fe[h].st = "done"
+         /\ \A h \in started : fe[h].st \in {"done", "abandoned"}
          /\ \A h \in Subs : stream[h].rx \in {"none", "ended", "dropped"}
 
 (* ---- silent steps ---- *)
@@ -118,7 +119,7 @@ Silent ==
      \/ \E h \in Subs : SubUnsubEnqueue(h) \/ SubDrainOne(h)
      \/ StNoticeClosed \/ RtNoticeClosed \/ RtHandOver \/ StCloseFront \/ StHandOver \/ StEnd \/ WdRecv \/ ManagerDrop
 
-TNext == T_Reset \/ T_FeStart \/ T_WireOut \/ T_PeerSend \/ T_WireIn \/ T_FeDone \/ T_SubNext \/ T_SubEnd \/ T_SubUnsub
+TNext == T_Reset \/ T_FeStart \/ T_WireOut \/ T_PeerSend \/ T_WireIn \/ T_FeDone \/ T_FeAbandon \/ T_SubNext \/ T_SubEnd \/ T_SubUnsub
          \/ T_SubUnsubDone \/ T_SubDrop \/ T_Fault \/ T_SendFault \/ T_RecvFault \/ T_Sizes \/ T_Connected \/ T_OnDisconnect
          \/ T_Noop \/ T_Quiet \/ T_End \/ Silent
 TSpec == TInit /\ [][TNext]_tvars
